@@ -234,10 +234,84 @@ def check_requests(system_spec, requests, kind, acc, sample=False):
         acc.violation('c19:warning-count', '%d warnings for %d unmatched requests: %r' % (len(messages), len(unmatched), messages), case)
 
 
+def marks_of(system, attr):
+    out = {}
+    for midx, mol in enumerate(system.molecules):
+        for key, node in mol.nodes(data=True):
+            if node.get(attr):
+                out[(midx, key)] = list(node[attr])
+    return out
+
+
+def expected_marks_for(info, requests):
+    marks = {}
+    for text, target in requests:
+        spec = ref_parse(text)
+        for res in info:
+            if ref_matches(spec, res, res['degree'], res['nbrs']):
+                for key in res['keys']:
+                    marks.setdefault((res['mol'], key), []).append(target)
+    return marks
+
+
+def check_rounds(system_spec, first, second, mode, acc):
+    """Two rounds of requests. mode 'repeat': both on the same system (marks accumulate per atom, in request order);
+    mode 'copy': the second round on a copy of the system - the original keeps the marks of the first round only;
+    mode 'subgraph': the second round on a system holding subgraph copies of the molecules."""
+    import vermouth
+    from vermouth.processors.annotate_mut_mod import AnnotateMutMod
+    ff = toy_ff()
+    system, info = build(system_spec, ff)
+    case = {'layer': 'annotate-rounds', 'system': list(system_spec), 'first': [list(r) for r in first], 'second': [list(r) for r in second], 'mode': mode}
+    want_first = expected_marks_for(info, first)
+    want_second = expected_marks_for(info, second)
+    both = {k: want_first.get(k, []) + want_second.get(k, []) for k in set(want_first) | set(want_second)}
+    try:
+        with common.LogCapture():
+            AnnotateMutMod(modifications=list(first)).run_system(system)
+            if mode == 'repeat':
+                other = system
+            elif mode == 'copy':
+                other = system.copy()
+            else:
+                other = vermouth.System(force_field=system.force_field)
+                other.molecules = [mol.subgraph(list(mol.nodes)) for mol in system.molecules]
+            AnnotateMutMod(modifications=list(second)).run_system(other)
+    except Exception as err:   # pylint: disable=broad-except
+        acc.case(outcome='exc')
+        acc.violation('c19:rounds-exception', 'two rounds of requests raised %r' % (err,), case)
+        return
+    got_original = marks_of(system, 'modification')
+    got_other = marks_of(other, 'modification')
+    acc.case(nontrivial=bool(want_first) and bool(want_second), outcome=('rounds', mode, len(want_first), len(want_second)))
+    if got_other != both:
+        acc.violation('c19:rounds-marks', '%s: after the rounds %r and %r the marks are %r; the specifications select %r' % (
+            mode, first, second, got_other, both), case)
+    elif mode != 'repeat' and got_original != want_first:
+        acc.violation('c19:request-leaks-to-other-system', 'the second round %r was applied to a %s of the system, yet the ORIGINAL system '
+                      'now carries %r instead of the marks of the first round %r' % (second, mode, got_original, want_first), case)
+
+
+def rounds_items(tier):
+    names = ['path', 'star', 'icodes'] if tier == 'quick' else list(SHAPES)
+    reqs = [('ALA', 'MODX'), ('A-GLY2', 'MODY'), ('nter', 'MODX'), ('#1', 'MODY'), ('A-cter', 'MODX')]
+    for name in names:
+        if name not in SHAPES:
+            continue
+        for first, second in itertools.product(reqs, repeat=2):
+            for mode in ('repeat', 'copy', 'subgraph'):
+                yield (name,), [first], [second], mode
+        yield (name,), [reqs[0], reqs[1]], [reqs[2], reqs[0]], 'copy'
+
+
 def work(task):
     common.bind_repo()
     kind, items = task
     acc = Acc()
+    if kind == 'rounds':
+        for system_spec, first, second, mode in items:
+            check_rounds(system_spec, first, second, mode, acc)
+        return acc
     if kind == 'annotate':
         for system_spec, requests, which in items:
             check_requests(system_spec, requests, which, acc, sample=(acc.states % 4001 == 0))
@@ -278,6 +352,11 @@ def run(ctx):
     for part in common.pmap(work, [('annotate', chunk) for chunk in common.chunked(items, max(1, len(items) // 96))]):
         acc += part
     ctx.layer('annotate', acc)
+    ritems = list(rounds_items(ctx.tier))
+    acc = Acc()
+    for part in common.pmap(work, [('rounds', chunk) for chunk in common.chunked(ritems, max(1, len(ritems) // 16))]):
+        acc += part
+    ctx.layer('annotate-rounds', acc)
     from props import c19_repair
     c19_repair.run_layer(ctx)
 
@@ -288,5 +367,8 @@ def replay(case):
     if case.get('layer') == 'repair':
         from props import c19_repair
         return c19_repair.replay(case)
+    if case.get('layer') == 'annotate-rounds':
+        check_rounds(tuple(case['system']), [tuple(r) for r in case['first']], [tuple(r) for r in case['second']], case['mode'], acc)
+        return [(s, d) for s, d, _ in acc.violations]
     check_requests(tuple(case['system']), [tuple(r) for r in case['requests']], case['kind'], acc)
     return [(s, d) for s, d, _ in acc.violations]
